@@ -268,16 +268,16 @@ def run(repo, chk):
     chk.ob("R15.3", "opparse.OperatorPrecedenceTower.__call__:rprio(right)-lprio(left)", ok, oc.where,
            "the order is rprio(right operator) - lprio(left operator)")
     pr = repo.func("opparse.Parser.process")
-    branches = {}
-    for n in walk_local(pr.node):
-        if isinstance(n, ast.If) and isinstance(n.test, ast.Compare) and is_name(n.test.left, "order") \
-                and isinstance(n.test.comparators[0], ast.Constant) and n.test.comparators[0].value == 0:
-            branches[type(n.test.ops[0]).__name__] = " ".join(norm(s) for s in n.body)
-    chk.ob("R15.3", "opparse.Parser.process:positive-opens", "stack.append(current)" in branches.get("Gt", "") and "_next()" in branches.get("Gt", ""),
+    fpp = facts_of(pr)
+    ordv = (fpp.bound_to("self.order(left, right)") or ["order"])[0]
+
+    def under(lit, *texts):
+        return all(any(t == x and lit in c for t, c, n in fpp.items) for x in texts)
+    chk.ob("R15.3", "opparse.Parser.process:positive-opens", under(f"{ordv} > 0", "stack.append(current)", "right = _next()"),
            pr.where, "a positive order opens a new handle and advances")
-    chk.ob("R15.3", "opparse.Parser.process:negative-closes", "self.finalize(current)" in branches.get("Lt", "") and "stack.pop()" in branches.get("Lt", ""),
+    chk.ob("R15.3", "opparse.Parser.process:negative-closes", under(f"{ordv} < 0", "middle = self.finalize(current)", "current = stack.pop()"),
            pr.where, "a negative order closes the current handle")
-    chk.ob("R15.3", "opparse.Parser.process:zero-merges", "current += [middle, right]" in branches.get("Eq", "") and "_next()" in branches.get("Eq", ""),
+    chk.ob("R15.3", "opparse.Parser.process:zero-merges", under(f"{ordv} == 0", "current += [middle, right]", "right = _next()"),
            pr.where, "a zero order merges into the current handle (brackets)")
 
     # ---------------- R15.4
@@ -330,10 +330,7 @@ def run(repo, chk):
     fo = repo.func("selector.Element.focus")
     chk.ob("R15.5", "selector.Element.focus:is-tag-1", norm(returns_of(fo.node)[0].value) == "1 in self.tags", fo.where, "focus means tag 1 is present")
     ni = repo.func("selector.make_nested_imm")
-    ok = False
-    for n in walk_local(ni.node):
-        if isinstance(n, ast.If) and norm(n.test) == "isinstance(child, Element)":
-            ok = any(isinstance(s, ast.Assign) and norm(s) == "child = child.with_focus()" for s in n.body)
+    ok = facts_of(ni).has("child = child.with_focus()", when=["isinstance(child, Element)"])
     chk.ob("R15.5", "selector.make_nested_imm:focus-after-last->", ok, ni.where, "the variable standing after `>` is focused")
     gc = repo.func("selector._guarantee_call")
     fgc = facts_of(gc)
